@@ -147,6 +147,16 @@ def step (st : St) (t : List String) : St × String :=
       if !st.s.built ∨ c ≤ st.nBuiltinCls ∨ c > st.s.clss.length ∨ kind = .none ∨ !nameOk name then (st, "bad-op")
       else (st, s!"call {findNum st.s (toName name) kind} {outcomeTok (invoke st.s e c (toName name) kind)}")
     | _, _, _ => (st, "bad-op")
+  | ["delay", cls, name] =>
+    match nat? cls with
+    | some c =>
+      if !st.s.built ∨ c ≤ st.nBuiltinCls ∨ c > st.s.clss.length ∨ !nameOk name then (st, "bad-op")
+      else
+        match commandDelay st.s c (toName name) with
+        | (_, none) => (st, "delay 0 dropped")
+        | (n, some (.ran dc di)) => (st, s!"delay {n} ran {dc}.{di}")
+        | (n, some _) => (st, s!"delay {n} nothing")
+    | none => (st, "bad-op")
   | _ => (st, "bad-op")
 
 def main : IO Unit := Driver.runLoop step {}
